@@ -152,3 +152,14 @@ Proof.
 Qed.
 
 End Find.
+
+Lemma C02_vars_lemma :
+  forall r text, loop_ok r -> forall S, sscan r text 0 S ->
+  exists F, forall fuel, F <= fuel ->
+    exists M, find_matches fuel (compile r 0) text true 0 0 0 = SOk M /\
+              map (fun m => (mstart m, mend m, mvars m)) M = map (fun s => (sp_start s, sp_end s, sp_env s)) S.
+Proof.
+  intros r text Hok S HS. destruct (find_correct_lemma r text Hok S HS) as (F & HF).
+  exists F. intros fuel Hf. destruct (HF fuel Hf) as (M & HM & Hsp & _). exists M. split; [exact HM|].
+  rewrite <- Hsp, map_map. reflexivity.
+Qed.
